@@ -367,4 +367,8 @@ def run(ctx: Ctx, repo: Repo, tier: str) -> None:
     ctx.attempt(_c07.rule_chain, ctx, repo)
     ctx.attempt(_c07.rule_no_memory, ctx, repo)
     ctx.attempt(_c07.rule_nested, ctx, repo)  # incl. "the same type whatever order the members of a (nested) union are in"
+    # the merge of generated TypedDicts does not depend on the order in which the traces arrive (R-C04.3 / R-C04.4: every
+    # permutation of <= 3 TypedDicts, with distinct value types and with one value type per key - the stage rule of seed C14-P)
+    from . import c04 as _c04
+    ctx.attempt(_c04.rule_merge, ctx, repo, "quick")
     ctx.settle()
